@@ -93,7 +93,7 @@ ALSO = {
     # C10 'ending in an object of the target type': the conformance test textx_isinstance
     "C10": {"C03": ("C03.c", "C03.h", "C03.m"), "C01": ("C01.i",), "C14": ("C14.m", "C14.p"), "C05": ("C05.h", "C05.g"), "C07": ("C07.e",), "C17": ("C17.m", "C17.n",)},      # C17.m: which imported models are visible to the importing model decides which qualified names the import providers may resolve (alias-only imports stay invisible)
     # the type a (possibly qualified) reference names is kept over repeated assignments
-    "C25": {"C01": ("C01.i",), "C24": ("C24.a",), "C23": ("C23.a",)},      # C24.a: the import statement's path token is one of the tokens the two grammars must agree on; C23.a: a rule of an imported grammar looked up by simple name raises KeyError
+    "C25": {"C01": ("C01.i",), "C23": ("C23.a",)},      # (the differ reports disagreements about the tokens of the import statement under C25 itself); C23.a: a rule of an imported grammar looked up by simple name raises KeyError
     "C29": {"C31": ("C31.a",)},      # the generator commands write their export through gen_file: a truncated file left behind is an ill-formed export
 }
 
